@@ -283,6 +283,10 @@ func (s *Session) Read(b []byte) (n int, err error) {
 			// Wait for incoming segments to fill the recvQueue.
 			select {
 			case <-s.closedChan:
+				if s.recvQueue.Len() > 0 {
+					// Data queued right before the close must be read first.
+					continue
+				}
 				return 0, io.EOF
 			case <-s.inputErr:
 				return 0, io.ErrUnexpectedEOF
